@@ -19,6 +19,10 @@ From NextestModel Require Model.NameFilter Model.FilterFull Proofs.FilterGlue.
 From NextestModel Require Model.Scripts Model.EnvFileLine Proofs.EnvFileLine.
 From NextestModel Require Model.DisplaySections Proofs.DisplaySections.
 From NextestModel Require Model.EnvOrder Proofs.EnvOrder.
+From NextestModel Require Model.ProfileChain Proofs.ProfileChain.
+From NextestModel Require Model.LibtestReport Proofs.LibtestReport.
+From NextestModel Require Model.ApplyEnv Proofs.ApplyEnv.
+From NextestModel Require Model.Classify Model.LeakVerdict Proofs.LeakVerdict.
 Import ListNotations.
 Open Scope N_scope.
 
@@ -34,6 +38,15 @@ Module MSe := NextestModel.Model.DisplaySections.
 Module PSe := NextestModel.Proofs.DisplaySections.
 Module MEO := NextestModel.Model.EnvOrder.
 Module PEO := NextestModel.Proofs.EnvOrder.
+Module MPC := NextestModel.Model.ProfileChain.
+Module MLR := NextestModel.Model.LibtestReport.
+Module MAE := NextestModel.Model.ApplyEnv.
+Module MCl := NextestModel.Model.Classify.
+Module MLV := NextestModel.Model.LeakVerdict.
+Module PLV := NextestModel.Proofs.LeakVerdict.
+Module PAE := NextestModel.Proofs.ApplyEnv.
+Module PLR := NextestModel.Proofs.LibtestReport.
+Module PPC := NextestModel.Proofs.ProfileChain.
 Module MJ := NextestModel.Model.Junit.
 Module MFl := NextestModel.Model.Filter.
 Module MD := NextestModel.Model.Dispatcher.
@@ -786,3 +799,304 @@ Lemma gen_env_order_is_model :
     existsb (fun s => match s with MEO.SrcNextest => true | _ => false end) sources = true /\
     EnvClassify.first_writer (G.test_command_env c) = Some EnvClassify.config_env_call.
 Proof. intros c. destruct c; vm_compute; repeat split; reflexivity. Qed.
+
+(* ---------------------------------------------------------------- profile inheritance (Model/ProfileChain.v, C06 / C07; fifth round) *)
+(* == block get_profile (needs conv_bytes) == *)
+(* NextestConfigImpl::get_profile, regenerated from the source (the configuration seen through `other_profiles`, a map
+   from names to tables rendered as a list of pairs; a table seen through the optional values it may set; the error
+   value is omitted): which table is selected besides the default profile is the model's [custom_table] -- none for the
+   name "default" ONLY, the table of that name for every other known name, an error for an unknown one. *)
+Definition tables_to_model (ts : list (Strings.String.string * G.CustomProfileImpl)) : list (BS.str * G.CustomProfileImpl) :=
+  map (fun kv => (bytes_of_string (fst kv), snd kv)) ts.
+Definition selection_of_result (r : option G.CustomProfileImpl + unit) : MPC.selection G.CustomProfileImpl :=
+  match r with
+  | inl None => MPC.SelDefault
+  | inl (Some p) => MPC.SelTable p
+  | inr _ => MPC.SelUnknown
+  end.
+Lemma str_assoc_lookup :
+  forall name (ts : list (Strings.String.string * G.CustomProfileImpl)),
+    G.str_assoc name ts = MPC.lookup (bytes_of_string name) (tables_to_model ts).
+Proof.
+  intros name ts. induction ts as [|[k p] ts IH]; [reflexivity|].
+  cbn [tables_to_model map fst snd MPC.lookup]. unfold G.str_assoc; fold (@G.str_assoc G.CustomProfileImpl name).
+  rewrite string_eqb_bytes. destruct (BS.str_eqb (bytes_of_string k) (bytes_of_string name)); [reflexivity | apply IH].
+Qed.
+Lemma default_name_bytes : bytes_of_string G.NextestConfig_DEFAULT_PROFILE = MPC.DEFAULT_NAME.
+Proof. reflexivity. Qed.
+Ltac bridge_profile :=
+  timeout 240 (intros; cbv -[bytes_of_string Strings.String.eqb G.str_assoc G.NextestConfig_DEFAULT_PROFILE];
+               repeat (bridge_case; cbv beta iota); bridge_leaf).
+Lemma gen_get_profile_is_model :
+  forall cfg name,
+    selection_of_result (G.NextestConfigImpl_get_profile cfg name) =
+    MPC.custom_table (bytes_of_string name) (tables_to_model (G.NextestConfigImpl_other_profiles cfg)).
+Proof.
+  intros cfg name. unfold MPC.custom_table.
+  rewrite <- default_name_bytes, <- string_eqb_bytes, <- str_assoc_lookup. destruct cfg as [ts]. bridge_profile.
+Qed.
+
+(* == block profile_accessor_retries == *)
+(* EvaluatableProfile::retries: the selected table's value if it sets one, otherwise the default profile's *)
+Lemma gen_profile_accessor_retries_is_model :
+  forall custom dflt, G.profile_accessor_retries custom dflt = MPC.resolve G.CustomProfileImpl_retries custom dflt.
+Proof. bridge. Qed.
+
+(* == block profile_accessor_slow_timeout == *)
+(* EvaluatableProfile::slow_timeout: the selected table's value if it sets one, otherwise the default profile's *)
+Lemma gen_profile_accessor_slow_timeout_is_model :
+  forall custom dflt, G.profile_accessor_slow_timeout custom dflt = MPC.resolve G.CustomProfileImpl_slow_timeout custom dflt.
+Proof. bridge. Qed.
+
+(* == block profile_accessor_leak_timeout == *)
+(* EvaluatableProfile::leak_timeout: the selected table's value if it sets one, otherwise the default profile's *)
+Lemma gen_profile_accessor_leak_timeout_is_model :
+  forall custom dflt, G.profile_accessor_leak_timeout custom dflt = MPC.resolve G.CustomProfileImpl_leak_timeout custom dflt.
+Proof. bridge. Qed.
+
+(* == block profile_accessor_threads_required == *)
+(* EvaluatableProfile::threads_required: the selected table's value if it sets one, otherwise the default profile's *)
+Lemma gen_profile_accessor_threads_required_is_model :
+  forall custom dflt, G.profile_accessor_threads_required custom dflt = MPC.resolve G.CustomProfileImpl_threads_required custom dflt.
+Proof. bridge. Qed.
+
+(* == block profile_accessor_test_threads == *)
+(* EvaluatableProfile::test_threads: the selected table's value if it sets one, otherwise the default profile's *)
+Lemma gen_profile_accessor_test_threads_is_model :
+  forall custom dflt, G.profile_accessor_test_threads custom dflt = MPC.resolve G.CustomProfileImpl_test_threads custom dflt.
+Proof. bridge. Qed.
+
+(* == block profile_accessor_success_output == *)
+(* EvaluatableProfile::success_output: the selected table's value if it sets one, otherwise the default profile's *)
+Lemma gen_profile_accessor_success_output_is_model :
+  forall custom dflt, G.profile_accessor_success_output custom dflt = MPC.resolve G.CustomProfileImpl_success_output custom dflt.
+Proof. bridge. Qed.
+
+(* == block profile_accessor_failure_output == *)
+(* EvaluatableProfile::failure_output: the selected table's value if it sets one, otherwise the default profile's *)
+Lemma gen_profile_accessor_failure_output_is_model :
+  forall custom dflt, G.profile_accessor_failure_output custom dflt = MPC.resolve G.CustomProfileImpl_failure_output custom dflt.
+Proof. bridge. Qed.
+
+(* == block profile_retries (needs conv_bytes get_profile profile_accessor_retries) == *)
+(* the two ends together: the retry policy of the profile of a given name, through the regenerated get_profile (what
+   EarlyProfile stores as `custom_profile`) and the regenerated accessor, is the model's [effective] value *)
+Definition gen_profile_value {V : Type} (acc : option G.CustomProfileImpl -> V -> V) (cfg : G.NextestConfigImpl)
+           (name : Strings.String.string) (dflt : V) : option V :=
+  match G.NextestConfigImpl_get_profile cfg name with
+  | inl custom => Some (acc custom dflt)
+  | inr _ => None
+  end.
+Lemma gen_profile_value_is_model :
+  forall (V : Type) acc (field : G.CustomProfileImpl -> option V),
+    (forall custom dflt, acc custom dflt = MPC.resolve field custom dflt) ->
+    forall cfg name dflt,
+      gen_profile_value acc cfg name dflt =
+      MPC.effective field (bytes_of_string name) (tables_to_model (G.NextestConfigImpl_other_profiles cfg)) dflt.
+Proof.
+  intros V acc field Hacc cfg name dflt. unfold gen_profile_value, MPC.effective.
+  rewrite <- gen_get_profile_is_model.
+  destruct (G.NextestConfigImpl_get_profile cfg name) as [[p|]|[]]; cbn [selection_of_result MPC.table_of];
+    rewrite ?Hacc; reflexivity.
+Qed.
+Lemma gen_profile_retries_is_model :
+  forall cfg name dflt,
+    gen_profile_value G.profile_accessor_retries cfg name dflt =
+    MPC.effective G.CustomProfileImpl_retries (bytes_of_string name) (tables_to_model (G.NextestConfigImpl_other_profiles cfg)) dflt.
+Proof. apply gen_profile_value_is_model. exact gen_profile_accessor_retries_is_model. Qed.
+(* a retry policy set at the level of the selected profile wins over the default profile's, for every profile name other
+   than "default" (built-in names included) *)
+Lemma gen_profile_retries_selected_wins :
+  forall cfg name p v dflt,
+    bytes_of_string name <> MPC.DEFAULT_NAME ->
+    MPC.lookup (bytes_of_string name) (tables_to_model (G.NextestConfigImpl_other_profiles cfg)) = Some p ->
+    G.CustomProfileImpl_retries p = Some v ->
+    gen_profile_value G.profile_accessor_retries cfg name dflt = Some v.
+Proof.
+  intros cfg name p v dflt Hn Hl Hf. rewrite gen_profile_retries_is_model.
+  exact (PPC.selected_value_wins _ _ _ _ _ p v dflt Hn Hl Hf).
+Qed.
+
+(* ---------------------------------------------------------------- the libtest-json report's stored output (Model/LibtestReport.v, C16; fifth round) *)
+(* == block conv_strip (needs conv_bytes) == *)
+(* str::strip_prefix / strip_suffix and Iterator::take_while / skip_while as translated, specified on Coq strings *)
+Module StrOps.
+  Import Strings.String.
+  Local Open Scope string_scope.
+  Lemma strip_prefix_app : forall p r, G.str_strip_prefix p (p ++ r) = Some r.
+  Proof. induction p as [|a p IH]; intros r; [destruct r; reflexivity|]. cbn. rewrite Ascii.eqb_refl. apply IH. Qed.
+  Lemma strip_prefix_some : forall p s r, G.str_strip_prefix p s = Some r -> s = p ++ r.
+  Proof.
+    induction p as [|a p IH]; intros s r H.
+    - destruct s; cbn in H; inversion H; reflexivity.
+    - destruct s as [|b s]; cbn in H; [discriminate|].
+      destruct (Ascii.eqb_spec a b) as [->|]; [|discriminate]. cbn. f_equal. apply IH. exact H.
+  Qed.
+  Lemma strip_suffix_unfold :
+    forall p s, G.str_strip_suffix p s =
+                if String.eqb s p then Some EmptyString
+                else match s with
+                     | EmptyString => None
+                     | String a r => match G.str_strip_suffix p r with Some k => Some (String a k) | None => None end
+                     end.
+  Proof. intros p s. destruct s; reflexivity. Qed.
+  Lemma strip_suffix_some : forall p s k, G.str_strip_suffix p s = Some k -> s = k ++ p.
+  Proof.
+    intros p s. induction s as [|a s IH]; intros k H; rewrite strip_suffix_unfold in H.
+    - destruct (String.eqb_spec EmptyString p) as [<-|]; [inversion H; reflexivity | discriminate].
+    - destruct (String.eqb_spec (String a s) p) as [<-|]; [inversion H; reflexivity|].
+      destruct (G.str_strip_suffix p s) as [k'|]; [|discriminate]. inversion H; subst k. cbn. f_equal. apply IH. reflexivity.
+  Qed.
+  Lemma append_length : forall a b, length (a ++ b) = (length a + length b)%nat.
+  Proof. induction a as [|x a IH]; intros b; [reflexivity|]. cbn. rewrite IH. reflexivity. Qed.
+  Lemma strip_suffix_app : forall p k, G.str_strip_suffix p (k ++ p) = Some k.
+  Proof.
+    intros p k. induction k as [|a k IH]; rewrite strip_suffix_unfold.
+    - cbn. rewrite String.eqb_refl. reflexivity.
+    - destruct (String.eqb_spec (String a k ++ p) p) as [E|_].
+      + exfalso. apply (f_equal length) in E. rewrite append_length in E. cbn in E. lia.
+      + cbn. cbn in IH. rewrite IH. reflexivity.
+  Qed.
+  Lemma append_inv_head : forall p a b, p ++ a = p ++ b -> a = b.
+  Proof. induction p as [|x p IH]; intros a b H; [exact H|]. cbn in H. inversion H. apply IH. assumption. Qed.
+  Lemma append_inv_tail : forall a b p, a ++ p = b ++ p -> a = b.
+  Proof.
+    induction a as [|x a IH]; intros [|y b] p H; [reflexivity| | |].
+    - exfalso. apply (f_equal length) in H. cbn in H. rewrite append_length in H. lia.
+    - exfalso. apply (f_equal length) in H. cbn in H. rewrite append_length in H. lia.
+    - cbn in H. inversion H. f_equal. eapply IH. eassumption.
+  Qed.
+  Lemma bytes_append : forall a b, bytes_of_string (a ++ b) = (bytes_of_string a ++ bytes_of_string b)%list.
+  Proof. induction a as [|x a IH]; intros b; [reflexivity|]. cbn. rewrite IH. reflexivity. Qed.
+End StrOps.
+Lemma flat_map_singleton : forall (A : Type) (l : list A), flat_map (fun x => [x]) l = l.
+Proof. induction l as [|x l IH]; [reflexivity|]. cbn. rewrite IH. reflexivity. Qed.
+Lemma flat_map_const : forall (A B : Type) (c : B) (l : list A), flat_map (fun _ => [c]) l = repeat c (length l).
+Proof. induction l as [|x l IH]; [reflexivity|]. cbn. rewrite IH. reflexivity. Qed.
+
+(* == block libtest_closing_line (needs conv_bytes conv_strip) == *)
+(* the predicate of the take_while in strip_human_stdout_or_combined, regenerated from the source: a line is kept unless
+   it is EXACTLY `test <name> ... FAILED` for this test's name (the model's [closing_line]) *)
+Module LibtestLit.
+  Import Strings.String.
+  Local Open Scope string_scope.
+  Definition closing (name : string) : string := "test " ++ (name ++ " ... FAILED").
+  Lemma closing_bytes : forall name, bytes_of_string (closing name) = MLR.closing_text (bytes_of_string name).
+  Proof. intros name. unfold closing, MLR.closing_text. rewrite !StrOps.bytes_append. reflexivity. Qed.
+  Definition header : string := "running 1 test".
+  Lemma header_bytes : bytes_of_string header = MLR.HEADER.
+  Proof. reflexivity. Qed.
+End LibtestLit.
+Ltac str_facts :=
+  repeat match goal with
+  | H : G.str_strip_prefix _ _ = Some _ |- _ => apply StrOps.strip_prefix_some in H
+  | H : G.str_strip_suffix _ _ = Some _ |- _ => apply StrOps.strip_suffix_some in H
+  | H : Strings.String.eqb _ _ = true |- _ => apply Strings.String.eqb_eq in H
+  | H : Strings.String.eqb _ _ = false |- _ => apply Strings.String.eqb_neq in H
+  end.
+Lemma gen_closing_line_string :
+  forall line name, G.libtest_closing_line line name = negb (Strings.String.eqb line (LibtestLit.closing name)).
+Proof.
+  intros line name. unfold G.libtest_closing_line.
+  destruct (Strings.String.eqb_spec line (LibtestLit.closing name)) as [->|Hne]; cbn [negb].
+  - unfold LibtestLit.closing. rewrite StrOps.strip_prefix_app, StrOps.strip_suffix_app.
+    rewrite ?Strings.String.eqb_refl. reflexivity.
+  - repeat match goal with
+           | |- context [match ?x with _ => _ end] => no_match x; destruct x eqn:?
+           | |- context [if ?c then _ else _] => no_match c; destruct c eqn:?
+           end; try reflexivity; str_facts; subst; exfalso; apply Hne; reflexivity.
+Qed.
+Lemma gen_libtest_closing_line_is_model :
+  forall line name,
+    G.libtest_closing_line line name = negb (MLR.closing_line (bytes_of_string name) (bytes_of_string line)).
+Proof.
+  intros line name. rewrite gen_closing_line_string. unfold MLR.closing_line.
+  rewrite <- LibtestLit.closing_bytes, <- string_eqb_bytes. reflexivity.
+Qed.
+
+(* == block libtest_report (needs conv_bytes conv_strip libtest_closing_line) == *)
+(* strip_human_stdout_or_combined as a whole, regenerated from the source (the output seen through "contains the header
+   followed by a newline", its lines and its text): the pieces written to the report, in order, are the model's [stored]
+   -- the lines after the header up to this test's exact status line, or the whole output for another harness; every
+   stored line is written with the format "{}\n" (followed by an escaped newline), the whole output with "{}"; the
+   header that is probed for is the header line followed by a newline. *)
+Module LibtestFmt.
+  Import Strings.String.
+  Definition line_format : string := "{}\n".
+  Definition whole_format : string := "{}".
+End LibtestFmt.
+Lemma take_while_until_closing :
+  forall (f : Strings.String.string -> bool) name,
+    (forall l, f l = negb (MLR.closing_line (bytes_of_string name) (bytes_of_string l))) ->
+    forall ls, map bytes_of_string (G.list_take_while f ls) = MLR.until_closing (bytes_of_string name) (map bytes_of_string ls).
+Proof.
+  intros f name Hf ls. induction ls as [|l r IH]; [reflexivity|].
+  cbn [map MLR.until_closing]. unfold G.list_take_while; fold (G.list_take_while f).
+  rewrite Hf. destruct (MLR.closing_line (bytes_of_string name) (bytes_of_string l)); cbn [negb map]; [reflexivity|].
+  rewrite IH. reflexivity.
+Qed.
+Lemma skip_while_after_header :
+  forall (f : Strings.String.string -> bool),
+    (forall l, f l = negb (Strings.String.eqb l LibtestLit.header)) ->
+    forall ls, map bytes_of_string (skipn 1 (G.list_skip_while f ls)) = MLR.after_header (map bytes_of_string ls).
+Proof.
+  intros f Hf ls. induction ls as [|l r IH]; [reflexivity|].
+  cbn [map MLR.after_header]. unfold G.list_skip_while; fold (G.list_skip_while f).
+  rewrite Hf, <- LibtestLit.header_bytes, <- string_eqb_bytes.
+  destruct (Strings.String.eqb l LibtestLit.header); cbn [negb]; [reflexivity | exact IH].
+Qed.
+Lemma gen_libtest_report_is_model :
+  forall out name,
+    map bytes_of_string (G.libtest_report out name) =
+    MLR.stored (bytes_of_string name) (G.LibtestOutput_buf_contains_str out)
+               (map bytes_of_string (G.LibtestOutput_lines out)) (bytes_of_string (G.LibtestOutput_as_str_lossy out)) /\
+    G.libtest_report_formats out name =
+    (if G.LibtestOutput_buf_contains_str out then repeat LibtestFmt.line_format (length (G.libtest_report out name))
+     else [LibtestFmt.whole_format]) /\
+    bytes_of_string G.libtest_header_probe = (MLR.HEADER ++ [10])%list.
+Proof.
+  intros [c ls whole] name. unfold G.libtest_report, G.libtest_report_formats, MLR.stored, MLR.report_lines.
+  cbn [G.LibtestOutput_buf_contains_str G.LibtestOutput_lines G.LibtestOutput_as_str_lossy].
+  destruct c; [|repeat split; reflexivity].
+  cbv zeta. rewrite flat_map_singleton, flat_map_const, map_id. change (N.to_nat 1) with 1%nat.
+  split; [|split; reflexivity].
+  rewrite (take_while_until_closing _ name) by (intros l; exact (gen_libtest_closing_line_is_model l name)).
+  rewrite skip_while_after_header by (intros l; reflexivity). reflexivity.
+Qed.
+
+(* ---------------------------------------------------------------- what SetupScriptExecuteData::apply writes (Model/ApplyEnv.v, C18; fifth round) *)
+(* == block apply_env_unconditional == *)
+(* SetupScriptExecuteData::apply, regenerated from the source (scripts, keys and values are tokens; whether a script's
+   rule matches the test is the input [enabled], asked of the script): the (key, value) pairs handed to Command::env, in
+   order, are the model's [env_writes] -- every binding of every script whose rule matches, nothing skipped. *)
+Definition env_maps_to_model (maps : list (N * G.SetupScriptEnvMap)) : list (N * list (N * N)) :=
+  map (fun d => (fst d, G.SetupScriptEnvMap_env_map (snd d))) maps.
+Lemma flat_map_pair_singleton : forall (A B : Type) (l : list (A * B)), flat_map (fun '(a, b) => [(a, b)]) l = l.
+Proof. induction l as [|[a b] l IH]; [reflexivity|]. cbn. rewrite IH. reflexivity. Qed.
+Lemma gen_apply_env_is_model :
+  forall maps enabled, G.apply_env maps enabled = MAE.env_writes enabled (env_maps_to_model maps).
+Proof.
+  intros maps enabled. unfold G.apply_env, MAE.env_writes, env_maps_to_model.
+  induction maps as [|[s m] maps IH]; [reflexivity|].
+  cbn [flat_map map fst snd]. rewrite IH. f_equal.
+  destruct (enabled s); [|reflexivity]. apply flat_map_pair_singleton.
+Qed.
+Lemma gen_apply_env_writes_every_binding :
+  forall maps enabled s m k v,
+    In (s, m) maps -> enabled s = true -> In (k, v) (G.SetupScriptEnvMap_env_map m) -> In (k, v) (G.apply_env maps enabled).
+Proof.
+  intros maps enabled s m k v Hd He Hk. rewrite gen_apply_env_is_model.
+  apply (PAE.every_enabled_binding_written _ _ _ enabled (env_maps_to_model maps) s (G.SetupScriptEnvMap_env_map m)); [|exact He|exact Hk].
+  unfold env_maps_to_model. apply in_map_iff. exists (s, m). split; [reflexivity | exact Hd].
+Qed.
+
+(* ---------------------------------------------------------------- the path of the leak verdict (Model/LeakVerdict.v, C03; fifth round) *)
+(* == block leak_verdict_unchanged == *)
+(* run_test_inner / run_setup_script_inner: the `leaked` argument of the create_execution_result call the status is
+   built from (inside `status.unwrap_or_else(|| ..)`), regenerated from the source together with the `let`s it depends
+   on, as a function of the value detect_fd_leaks(..).await yielded (an opaque input): it IS that value. *)
+Lemma gen_leak_verdict_unchanged :
+  forall detected,
+    G.run_test_leak_verdict detected = MLV.verdict_of_detection detected /\
+    G.run_script_leak_verdict detected = MLV.verdict_of_detection detected.
+Proof. intros detected. split; bridge. Qed.
